@@ -37,8 +37,42 @@ def fmtErr : Err → String
   | .signersCount => "signers-count" | .signerIndex => "signer-index" | .dupSigner => "dup-signer"
   | .badKey => "bad-key" | .mismatch => "mismatch" | .notSchnorr => "not-schnorr"
 
+/-- `v<pver>:<h1+h2+…>` — hashes go to the payload for version 0, to withdraw outputs otherwise -/
+def parseFlowTx (s : String) : Option Tx :=
+  match s.splitOn ":" with
+  | [v, hs] => do
+      let pver ← (String.ofList (v.toList.drop 1)).toNat?
+      let hs ← (csvW hs "+").mapM nat?
+      some (if pver = 0 then ⟨0, hs, [], [], [true], []⟩ else ⟨pver, [], hs, [], [true], []⟩)
+  | _ => none
+
+def parseFlow (toks : List String) : Option (List HStep) :=
+  let groups := (" ".intercalate toks).splitOn " / "
+  groups.mapM fun g => match g.splitOn " " with
+    | "S" :: txs => do some (.save (← txs.mapM parseFlowTx))
+    | ["R"] => some .rollback
+    | _ => none
+
+/-- fixed, otherwise valid single-hash withdrawals used to probe the index after a history -/
+def probeCfg : Cfg := ⟨100, 10, 20, 30, 2, 2, 2⟩
+def probeV1 (wd : List Nat) (x : Nat) : Bool :=
+  specialCheck probeCfg ⟨[⟨5, true⟩, ⟨7, true⟩], [], [⟨5, true⟩, ⟨7, true⟩], 2, 1, wd⟩ 25
+    ⟨1, [], [x], [], [true], [⟨true, 3, 2, [7, 5], false, 0⟩]⟩ == some .dupHash
+def probeV0 (wd : List Nat) (x : Nat) : Bool :=
+  specialCheck probeCfg ⟨[], [], [⟨5, true⟩, ⟨7, true⟩], 2, 1, wd⟩ 5
+    ⟨0, [x], [], [], [true], [⟨true, 2, 2, [7, 5], false, 0⟩]⟩ == some .dupHash
+
+def fmtSet (f : Nat → Bool) : String :=
+  let xs := (List.range 9).filter (fun x => x ≥ 1 && f x)
+  if xs.isEmpty then "-" else ",".intercalate (xs.map toString)
+
 def stepC33 (toks : List String) : String :=
   match toks with
+  | "wflow" :: rest => match parseFlow rest with
+    | some steps =>
+      let wd := (runHist ([], []) steps).1
+      s!"dup={fmtSet (wd.contains ·)} v1={fmtSet (probeV1 wd)} v0={fmtSet (probeV0 wd)}"
+    | none => "bad-op"
   | "chk" :: height :: rest =>
     match nat? height, field? rest "cfg" >>= natsW?, field? rest "arbs" >>= parseArbs, field? rest "crc" >>= parseArbs,
           field? rest "cross" >>= parseArbs, field? rest "cc" >>= String.toNat?, field? rest "maj" >>= String.toNat?,
